@@ -464,9 +464,34 @@ def r4_replay(ck, rule="C04-R4"):
             ck.require(good, rule, "rollback replays the caller's report (%s)" % fn.name, "mode passed is %s" % df.show(m), fn.where(t))
 
 
+def r4_direction(ck, rule="C04-R4"):
+    """(d) whoever undoes an application for real (the aborting rollback API) names the direction the application was made with:
+    the direction argument is the `direction()` recorded in the very report that is replayed, never a constant."""
+    prog, cg = ck.prog, ck.cg
+    ctors, aborting = discover_rollback_api(ck)
+    n = 0
+    for a in sorted(aborting):
+        for s in cg.sites_to(a):
+            if s.term is None or s.caller.id in ctors or s.caller.id in aborting:
+                continue
+            fn, t = s.caller, s.term
+            if len(t["args"]) < 4:
+                continue
+            n += 1
+            d = df.operand_expr(fn, t["args"][2])
+            rep = df.operand_expr(fn, t["args"][3])
+            good = df.is_call(d, "FilePatchApplyReport::direction") and len(d[2]) == 1 and d[2][0] == rep
+            ck.require(good, rule, "rollback in %s is given the recorded direction" % fn.name,
+                       "the direction passed to %s is %s, not the direction recorded in the report being replayed (%s): undoing a patch that "
+                       "was applied reversed (series entry with -R) applies it once more instead" % (a.split("::")[-1], df.show(d, 80), df.show(rep, 80)),
+                       fn.where(t), ok_detail="direction = %s" % df.show(d, 100))
+    ck.floor(rule, "real (aborting) rollback call sites", n, 1)
+
+
 def run(ck):
     r1_fields_restored(ck)
     r2_single_caller(ck)
     r3_lifo(ck)
     r3b_pop_after_rollback(ck)
     r4_replay(ck)
+    r4_direction(ck)
